@@ -178,6 +178,15 @@ def run(toks):
                     key = given
                 elif kind in ('xprvk', 'xpubk', 'axprvk'):      # ... parsed into an HDKey object first
                     key = HDKey(given, network=net, witness_type=wt)
+                elif kind.startswith('depth'):      # depth<n>[p]: the key <n> levels down the documented path (p: public)
+                    from bitcoinlib.networks import Network
+                    from bitcoinlib.main import get_key_structure_data
+                    full = ["%d'" % get_key_structure_data(wt, False)[1], "%d'" % Network(net).bip44_cointype,
+                            "%d'" % acct, '0', '0']
+                    key = HDKey.from_seed(seed, network=net, witness_type=wt).subkey_for_path(
+                        '/'.join(['m'] + full[:int(kind[5])]))
+                    if kind.endswith('p'):
+                        key = key.public()
                 elif kind == 'single':        # a single-key wallet: one private key, no derivation (scheme 'single')
                     m = HDKey.from_seed(seed, network=net, witness_type=wt)
                     key = HDKey(key=m.private_byte, chain=m.chain, network=net, witness_type=wt, key_type='single')
